@@ -16,13 +16,19 @@ def scenarios(rng, tier):
         s.start('emit_%d' % k); s.lines.append(cfg.line())
         M = mac(1); ME = M if rng.random() < 0.6 else mac(40)
         s.frame(0, discover(M, gen=rng.randrange(65536), seq=rng.randrange(65536), esrc=ME))
+        lastseq = None
         for i in range(rng.choice([1, 3])):
             cnt = rng.choice([1, 1, 2, 3, rng.randrange(1, cap + 1), cap - 1, cap] if mtu <= 1500 or tier == 'thorough' else [1, 2, 3, 40])
             descs = [(rng.choice([0, 1]), rng.choice([0, 1, 255, rng.randrange(256)]), mac(rng.randrange(1, 1 << 20)), rng.choice([own, mac(rng.randrange(1, 1 << 20))])) for _ in range(cnt)]
-            s.frame(0, emit(M, own, descs, seq=rng.randrange(1, 65536), esrc=rng.choice([ME, M])), rng.choice(['00', 'ff']))
+            sq = rng.randrange(1, 65536)
+            if lastseq is not None and rng.random() < 0.5: sq = lastseq          # same sequence number as the mapper's previous request
+            if rng.random() < 0.3: s.frame(0, query(M, own, seq=sq, esrc=ME))
+            elif rng.random() < 0.2: s.frame(0, qlt(M, own, 14, 0, seq=sq, esrc=ME))
+            s.frame(0, emit(M, own, descs, seq=sq, esrc=rng.choice([ME, M])), rng.choice(['00', 'ff'])); lastseq = sq
         r = rng.random()
         if r < 0.5:
-            declared = rng.choice([cap + 1, cap + 2, 0x7FFF, 0x8000, 0xFFFF])
+            wrap = [(65536 * m + 13) // 14 + j for m in range(1, 14) for j in (0, 1, cap // 2, cap)]      # count*14 wraps 16 bits to something small
+            declared = rng.choice([cap + 1, cap + 2, 0x7FFF, 0x8000, 0xFFFF] + [w for w in rng.sample(wrap, 6) if w <= 0xFFFF])
             present = rng.choice([0, 1, 5, min(cap, 30)])
             descs = [(1, 0, mac(7), mac(8)) for _ in range(present)]
             s.frame(0, emit(M, own, descs, seq=rng.randrange(1, 65536), count=declared), rng.choice(['00', 'ff', '01']))
